@@ -8,6 +8,8 @@ pub mod util;
 #[cfg(kani)]
 mod c07;
 #[cfg(kani)]
+mod c12;
+#[cfg(kani)]
 mod c13;
 #[cfg(kani)]
 mod c15;
